@@ -159,6 +159,9 @@ def form_differences(t, op, res):
     bad = []
     extra = []
     cells = list(t.cells)
+    if op.get("big"):  # large stream: the primary form, one function form and a second call only
+        fs = fs[:2]
+        cells = []
     cum_like = bool(cells) and type(cells[0]).__name__ != "IncrementalCell"
     # H: the same call twice on the SAME receiver object (cached properties populated by the first call)
     def twice(tt):
@@ -166,10 +169,10 @@ def form_differences(t, op, res):
         return fs[0][1](tt)
     extra.append(("second call on the same receiver", twice))
     # K: unit spellings
-    if op["kind"] == "rt" and op["unit"] in ("month", "day"):
+    if op["kind"] == "rt" and op["unit"] in ("month", "day") and not op.get("big"):
         for sp in {"month": ["months", "Month", " MONTHS "], "day": ["days", "Day", " DAYS "]}[op["unit"]]:
             extra.append((f"method(dev_lag_unit={sp!r})", lambda tt, sp=sp: tt.make_right_triangle(dev_lags=op["lags"], dev_lag_unit=sp)))
-    if op["kind"] == "rt" and op["unit"] == "timedelta":
+    if op["kind"] == "rt" and op["unit"] == "timedelta" and not op.get("big"):
         tl = None if op["lags"] is None else [datetime.timedelta(days=x) for x in op["lags"]]
         extra.append(("method(dev_lag_unit='TimeDelta')", lambda tt: tt.make_right_triangle(dev_lags=tl, dev_lag_unit="TimeDelta")))
         # the timedelta unit is the day unit: same cells as asking in days
@@ -848,6 +851,73 @@ def hardening():
     return out
 
 
+class Big:
+    """a large triangle together with the parameters that rebuild it (replays record the parameters)"""
+
+    def __init__(self, tri, params):
+        self.tri, self.params, self.cells = tri, params, tri.cells
+
+    def __len__(self):
+        return len(self.cells)
+
+
+def big15(p):
+    """Large C15 inputs from a few parameters (recorded in replays instead of the cells).
+    kind row:        n_periods monthly periods, each observed at lags 0..n_lags-1 minus every `hole`-th lag (rows > 65 cells)
+    kind upper_left: n x n monthly upper-left triangle (about n*n/2 missing cells -> that many distinct add_months calls)"""
+    from bermuda import CumulativeCell, Metadata, Triangle
+
+    start = (p.get("year", 1985) - 1970) * 12
+    from harness.acc_common import mstart as ms_
+
+    cells = []
+    metas = [Metadata(details={"s": j}) for j in range(p.get("slices", 1))]
+    if p["kind"] == "row":
+        for m in metas:
+            for a in range(p["n_periods"]):
+                for k in range(p["n_lags"]):
+                    if p.get("hole") and k % p["hole"] == p["hole"] - 1 and k != p["n_lags"] - 1:
+                        continue
+                    cells.append(CumulativeCell(period_start=ms_(start + a), period_end=mend(start + a), evaluation_date=mend(start + a + k),
+                                                values={"paid_loss": 1000 * a + k, "earned_premium": 5.5}, metadata=m))
+    else:
+        n = p["n"]
+        for m in metas:
+            for a in range(n):
+                for k in range(n - a):
+                    cells.append(CumulativeCell(period_start=ms_(start + a), period_end=mend(start + a), evaluation_date=mend(start + a + k),
+                                                values={"paid_loss": a + k}, metadata=m))
+    cells = cells if not p.get("inc") else inc_cells(Triangle(cells))
+    random.Random(p.get("seed", 0)).shuffle(cells)
+    with warnings.catch_warnings():
+        warnings.simplefilter("ignore")
+        return Triangle(cells)
+
+
+def big_cases(quick):
+    """(label, params, op): sizes cross rows of > 65 cells, > 64 evaluation dates, > 4096 distinct (date, lag) pairs in one
+    process, > 2100 / 4200 cells"""
+    row = {"kind": "row", "n_periods": 3, "n_lags": 80, "hole": 7}
+    hi = mend((1985 - 1970) * 12 + 2 + 79)
+    out = [("big:row80", row, {"kind": "rt", "unit": "month", "lags": None}),
+           ("big:row80", row, {"kind": "rt", "unit": "day", "lags": [0, 3000, 4000]}),
+           ("big:row80", row, {"kind": "rd", "dates": [mend(mid(hi) + k).isoformat() for k in (-2, 0, 1, 5)], "hist": False}),
+           ("big:row80", row, {"kind": "ff", "res": 1, "none": False}),
+           ("big:row80", row, {"kind": "bf", "statics": ["earned_premium"], "res": 1, "min_lag": 0}),
+           ("big:row70-inc-2sl", {"kind": "row", "n_periods": 2, "n_lags": 70, "slices": 2, "inc": True},
+            {"kind": "rt", "unit": "month", "lags": None}),
+           ("big:row66-late-first-lag", {"kind": "row", "n_periods": 2, "n_lags": 66, "hole": 5, "year": 1999},
+            {"kind": "bf", "statics": [], "res": 1, "min_lag": 0}),
+           ("big:upper-left-92", {"kind": "upper_left", "n": 92}, {"kind": "rt", "unit": "month", "lags": None})]
+    if not quick:
+        out += [("big:upper-left-130", {"kind": "upper_left", "n": 130}, {"kind": "rt", "unit": "month", "lags": None}),
+                ("big:upper-left-70-inc-2sl", {"kind": "upper_left", "n": 70, "slices": 2, "inc": True}, {"kind": "rt", "unit": "month", "lags": None}),
+                ("big:upper-left-92-diag", {"kind": "upper_left", "n": 92},
+                 {"kind": "rd", "dates": [mend((1985 - 1970) * 12 + 91 + k).isoformat() for k in range(-3, 60)], "hist": False}),
+                ("big:row300", {"kind": "row", "n_periods": 4, "n_lags": 300, "hole": 11}, {"kind": "ff", "res": 1, "none": True})]
+    return [(lab, p, dict(op, big=True)) for lab, p, op in out]
+
+
 def known_class(ctx, kind):
     return any(k.get("property") == "C15" and k.get("status") == "known" and k.get("class") == {"kind": kind}
                for k in ctx.known)
@@ -915,6 +985,7 @@ def run_cases(ctx, cases):
         chunk, pr = [], None
 
     n_ok = 0
+    early = []
     for i, (label, t, op) in enumerate(cases):
         before = ct.canon_tri(t, ordered=True)
         try:
@@ -929,6 +1000,12 @@ def run_cases(ctx, cases):
                               ("empty" if len(res) == 0 else "cells")))
         for msg in oracle(t, op, res)[:2]:
             ofail.append((i, label, t, op, msg))
+        if i < 10:
+            early.append((label, t, op, ("err", type(res).__name__) if isinstance(res, BaseException) else ct.canon_tri(res, ordered=True)))
+        if op.get("big"):
+            ctx.hist("big:python-oracles-only")
+            ctx.nontriv((label, repr(sorted(op.items(), key=str))))
+            continue  # no Coq literals for the large stream (the theorems are size-independent)
         if pr is None:
             pr = CellPrinter(f"k{len(files)}_")
         save = (list(pr.defs), dict(pr.names))
@@ -951,6 +1028,18 @@ def run_cases(ctx, cases):
         if len(chunk) >= per_file:
             flush()
     flush()
+    # process-wide state (memo rings, pools): the earliest small cases are run again AFTER all the large work
+    for label, t, op, first in early:
+        try:
+            res = apply_op(t, op)
+        except Exception as ex:  # noqa: BLE001
+            res = ex
+        again = ("err", type(res).__name__) if isinstance(res, BaseException) else ct.canon_tri(res, ordered=True)
+        op2 = dict(op, after_large=True)   # the replay repeats the large work first
+        if again != first:
+            ofail.append((0, label, t, op2, "re-check after the large stream: the same call on the same input now gives another result"))
+        for msg in oracle(t, op, res)[:1]:
+            ofail.append((0, label, t, op2, "(re-check after the large stream) " + msg))
     out = ctx.coqc_many([f for f, _ in files], jobs=16, timeout=900)
     for f, idxs in files:
         rc, txt = out[f]
@@ -1040,12 +1129,27 @@ def run(ctx):
         i += 1
         if c is not None:
             cases.append(c)
+    built = {}
+    for lab, p, op in big_cases(ctx.quick):
+        key = repr(sorted(p.items()))
+        if key not in built:
+            built[key] = big15(p)
+        cases.append((lab, Big(built[key], p), op))
+    ctx.notes.append("large stream: %d big (triangle, operator) cases (rows of 66-80+ cells, a 92x92 upper-left triangle with 4186 "
+                     "missing cells) judged by the Python-side oracles only, no Coq literals for them (the theorems are "
+                     "size-independent; the correspondence samples); the earliest small cases are run again after the large work"
+                     % len(big_cases(ctx.quick)))
     ofail, mism = run_cases(ctx, cases)
     ctx.log(f"{len(cases)} cases: {len(ofail)} oracle failures, {len(mism)} model/spec mismatches")
     ctx.obligation("correspondence model = implementation and specs hold on implementation outputs", not mism,
                    repr([(m[1], m[4]) for m in mism[:8]]))
-    candidate_probes(ctx)
-    k2_probe(ctx)
+    for probe, pdata in ((candidate_probes, {"op": {"kind": "ff", "res": 3, "none": False}, "probe": "K1 input (lags 0 and 7)"}),
+                         (k2_probe, {"op": {"kind": "ff", "res": 3, "none": False}, "probe": "K2 input (restated cell)"})):
+        try:
+            probe(ctx)
+        except Exception as ex:  # noqa: BLE001  the operator refused a valid probe input (e.g. corrupted process-wide state)
+            ofail.append((0, "probe:" + pdata["probe"], [], pdata["op"],
+                          f"raised {type(ex).__name__}: {ex} on the {pdata['probe']} after the streams ran"))
     report(ctx, ofail, mism)
 
 
@@ -1088,6 +1192,10 @@ def report(ctx, ofail, mism):
         if key in seen:
             continue
         seen.add(key)
+        if isinstance(t, Big):
+            ctx.violation("impl-violation", f"{op['kind']}: {msg} [{label}]",
+                          {"label": label, "op": op, "big_params": t.params, "cells": "generated from big_params"}, found_input=True)
+            continue
         small = shrink(t, op) if not isinstance(t, list) else t
         ctx.violation("impl-violation", f"{op['kind']}: {msg} [{label}]",
                       {"label": label, "op": op, "cells": tri_to_json(small)}, found_input=True)
@@ -1110,8 +1218,24 @@ def replay(ctx, data):
         print("replay: no concrete input recorded:", data.get("what"))
         return 1
     warnings.simplefilter("ignore")
-    t = tri_from_json(data["cells"])
-    op = data["op"]
+    t = big15(data["big_params"]) if data.get("big_params") else tri_from_json(data["cells"])
+    op = dict(data["op"])
+    first = None
+    if op.pop("after_large", False):
+        try:
+            r0 = apply_op(t, op)
+            first = ct.canon_tri(r0, ordered=True)
+        except Exception as ex:  # noqa: BLE001
+            first = ("err", type(ex).__name__)
+        built = {}
+        for lab, p, bop in big_cases(True):
+            key = repr(sorted(p.items()))
+            built.setdefault(key, big15(p))
+            try:
+                apply_op(built[key], bop)
+            except Exception:  # noqa: BLE001
+                pass
+        print("(the large stream was run first, in this process)")
     try:
         res = apply_op(t, op)
     except Exception as ex:  # noqa: BLE001
@@ -1119,6 +1243,10 @@ def replay(ctx, data):
     print(f"{op} on a triangle with {len(t)} cells ->",
           f"raised {type(res).__name__}: {res}" if isinstance(res, BaseException) else f"{len(res)} cells")
     msgs = oracle(t, op, res)
+    if first is not None:
+        again = ("err", type(res).__name__) if isinstance(res, BaseException) else ct.canon_tri(res, ordered=True)
+        if again != first:
+            msgs.append("the same call on the same input gives another result after the large work than before it")
     for m in msgs:
         print("  FAILS:", m)
     if not msgs:
